@@ -61,6 +61,7 @@ type fdecl struct {
 type op struct {
 	kind   byte // D C W N X R J M P S
 	pid    int
+	shape  byte // declaration spelling: 0 list, b bare, q quoted name, x extra argument, n no array, e element that is no field
 	s      int  // struct index
 	id     int  // instance variable
 	route  byte // h d x l j
@@ -75,7 +76,14 @@ type op struct {
 func (o *op) toks() string {
 	switch o.kind {
 	case 'D':
+		switch o.shape {
+		case 'b', 'x', 'n', 'e':
+			return fmt.Sprintf("D%c %d", o.shape, o.s)
+		}
 		s := fmt.Sprintf("D %d %d", o.s, len(o.fields))
+		if o.shape == 'q' {
+			s = fmt.Sprintf("Dq %d %d", o.s, len(o.fields))
+		}
 		for _, f := range o.fields {
 			s += fmt.Sprintf(" f%d %s", f.f, f.t.toks())
 		}
@@ -190,7 +198,13 @@ func parseStep(s string) *op {
 	k := ts.next()
 	o.kind = k[0]
 	switch k {
-	case "D":
+	case "Db", "Dx", "Dn", "De":
+		o.shape = k[1]
+		o.s = ts.int()
+	case "D", "Dq":
+		if k == "Dq" {
+			o.shape = 'q'
+		}
 		o.s = ts.int()
 		n := ts.int()
 		for i := 0; i < n; i++ {
